@@ -285,7 +285,8 @@ namespace {
                { emit(P.intern_event(1, make_word(tail, ++tag))); emit(P.observe_event(1 + static_cast<int>(below(P.strings.size() - 1)))); }
          }
          std::vector<std::size_t> bigs { 1048560, 1048568, 1048575, 1048576, 1048577, 1048584 };
-         if (big) { bigs.push_back(2000000); bigs.push_back(3 * 1048576 + 5); }
+         bigs.push_back(2000000);
+         if (big) bigs.push_back(3 * 1048576 + 5);
          for (auto n : bigs) {
             emit(P.intern_event(1, make_word(n, ++tag)));
             emit(P.intern_event(1, make_word(8 + below(64), ++tag)));
